@@ -8,7 +8,8 @@
     and the differentiator [sdiff] (= SymPy's diff inside Matrix.jacobian).
 
     INPUT of the model ([smodel]) is exactly what the Python function reads: the model's
-    containers in declaration order and the parts of the ModelCache it consults
+    containers in declaration order (surrogates included: the conversion reads their output NAMES)
+    and the parts of the ModelCache it consults
     ([order], [stoich_by_cpds], [dyn_stoich_by_cpds], [var_names], [all_parameter_values]).
     How the cache is built is the subject of C01/C02/C03 (coq/core), not of this file.
 
